@@ -128,6 +128,54 @@ def run_mir_pagination(prop):
     return out
 
 
+def run_mir_bloom(prop):
+    """Engine M (C36): inductive symbolic execution of BloomFilter's MIR, for every shape and hash count."""
+    import sys
+    sys.path.insert(0, os.path.join(vc.VERIF, "mir"))
+    sys.path.insert(0, os.path.join(vc.VERIF, "p"))
+    import mirsym, mirbv
+    import pengine as P
+    out = {"violations": [], "known": [], "inconclusive": [], "evidence": {}}
+    try:
+        path, secs = mirsym.dump_mir()
+        text = open(path).read()
+    except Exception as ex:
+        out["inconclusive"].append(f"MIR dump failed: {str(ex)[-300:]}")
+        return out
+    b = P.Bridge()
+    try:
+        res = mirbv.check_bloom(text, b.job)
+    except Exception as ex:
+        out["inconclusive"].append(f"MIR executor cannot handle BloomFilter as compiled now: {ex}")
+        b.close()
+        return out
+    b.close()
+    for n, (ctor, cex, name, found) in enumerate(res["violations"]):
+        key = "bloom:" + ctor
+        path = os.path.join(vc.REPLAY, f"{prop}-bloom-{ctor}-{n}.json")
+        vc.ensure_dirs()
+        with open(path, "w") as f:
+            json.dump({"property": prop, "engine": "M", "function": "bloom", "ctor": ctor, "shape": cex,
+                       "native_result": found, "obligation": name}, f, indent=1)
+        fnd = vc.open_finding_for(prop, key)
+        if fnd:
+            out["known"].append(f"key={key} {fnd['what']}")
+        else:
+            out["violations"].append((path, f"BloomFilter::{ctor} shape {cex}: key {found.get('fail_key')} -> "
+                                            f"{found.get('kind')} (history {found.get('history')}); failed obligation: {name} (key={key})"))
+    out["inconclusive"].extend(res["inconclusive"])
+    out["evidence"] = {"functions": res["functions"], "constructor_paths": res["shapes"], "obligations": res["results"],
+                       "translator_validated_on_native_shapes": res["translator_validated_on"],
+                       "queries": res["queries"], "solver_s": res["solver_s"], "mir_dump_s": round(secs, 1),
+                       "assumptions": res["assumptions"],
+                       "bounds": "none on the number of bits, the number of hash functions, the number of insertions or the "
+                                 "keys: one inductive step of each loop is decided for an arbitrary iteration index and an "
+                                 "arbitrary bit array, for every shape a constructor path can return; usize/u64 are 64-bit "
+                                 "bit-vectors; hashing (DefaultHasher::new, Hash::hash, finish) is uninterpreted",
+                       "regenerated_from": "cargo +nightly check with -Zunpretty=mir on /repo's working tree"}
+    return out
+
+
 def run_property(prop, tier):
     spec = SPECS[prop]
     t0 = time.time()
@@ -135,6 +183,11 @@ def run_property(prop, tier):
     mir = None
     if prop == "C35":
         mir = run_mir_pagination(prop)
+        r["violations"].extend(mir["violations"])
+        r["known"].extend(mir["known"])
+        r["inconclusive"].extend(mir["inconclusive"])
+    if prop == "C36":
+        mir = run_mir_bloom(prop)
         r["violations"].extend(mir["violations"])
         r["known"].extend(mir["known"])
         r["inconclusive"].extend(mir["inconclusive"])
